@@ -45,7 +45,9 @@ Clauses(t) ==
                             RAdd(RMul(<<g[i][2], g[i][3]>>, VDot(env[ps[g[i][1]][1]], env[ps[g[i][1]][2]])), SpEval(g, i + 1))
                     IN \E k \in 1..Len(t.cons) : RAdd(SpEval(t.cons[k].e.G, 1), <<t.cons[k].e.c[1], t.cons[k].e.c[2]>>) # Z}
       c9 == IF c8 = {} /\ c1 = {} /\ realBad # {} THEN {<<"real-coordinate-projections-violate-the-model", Cardinality(realBad)>>} ELSE {}
-  IN c0 \cup c1 \cup c2 \cup c3 \cup c4 \cup c5 \cup c6 \cup c7 \cup c8 \cup c9
+  IN IF t.over = 1
+     THEN {<<"more-leaf-points-than-d-1-per-decomposed-point", t.np>>}      \* (nothing else can be projected)
+     ELSE c0 \cup c1 \cup c2 \cup c3 \cup c4 \cup c5 \cup c6 \cup c7 \cup c8 \cup c9
 \* the clauses are computed in a step (not in the initial predicate) so that TLC's workers share the traces
 TInit == tid \in 1..Len(Traces) /\ bad = {} /\ phz = 0 /\ d = 1 /\ np = 2 /\ blocks = <<>> /\ hist = <<>> /\ rets = <<>> /\ ctor = 1
 TNext == phz = 0 /\ bad' = Clauses(Traces[tid]) /\ phz' = 1 /\ UNCHANGED <<tid, d, np, blocks, hist, rets, ctor>>
